@@ -61,7 +61,7 @@ pub fn handle_ops(h: u8, name: &str, cs: u32, full: bool) -> Vec<Op> {
         for d in [1, -1, csi, -csi, 1 << 31, -(1 << 31), 1 << 32, -(1 << 32), (1 << 32) + 1, i64::MIN, i64::MAX] {
             a.push(Op::Seek { h, pos: SeekSpec::Current(d) });
         }
-        for d in [0, -1, -csi, 1, -(1 << 40)] {
+        for d in [0, -1, -csi, 1, -(1 << 40), 1 << 32, i64::MIN, i64::MAX] {
             a.push(Op::Seek { h, pos: SeekSpec::End(d) });
         }
         a.push(Op::Seek { h, pos: SeekSpec::Start(1 << 32) });
@@ -72,6 +72,7 @@ pub fn handle_ops(h: u8, name: &str, cs: u32, full: bool) -> Vec<Op> {
         a.push(Op::Seek { h, pos: SeekSpec::Current(-1) });
     }
     a.push(Op::Truncate { h });
+    a.push(Op::CloneFile { h });
     a.push(Op::Flush { h });
     a.push(Op::DropFile { h });
     a.push(Op::OpenFile { base: DirRef::Root, path: name.into(), keep: Some(h) });
@@ -178,7 +179,7 @@ pub fn size_limit_checks() -> (Vec<(String, String)>, u64) {
     // sizes: 15 bytes below the limit (inside the last possible cluster), one whole cluster below it (the next write
     // has to allocate the last possible cluster), at the limit
     for size in [0xFFFF_FFF0u32, 0xFFFF_8000, 0xFFFF_FFFF] {
-        for wlen in [1usize, 32, 40_000] {
+        for (wlen, all) in [(1usize, false), (32, false), (40_000, false), (1, true), (32, true), (40_000, true)] {
             n += 1;
             let len = ((size as u64 + cs - 1) / cs) as u32;
             let big = BigFile { start: 10, len, size };
@@ -186,7 +187,7 @@ pub fn size_limit_checks() -> (Vec<(String, String)>, u64) {
             let sp = sparse_with(&shape, &free, free[0], "size-limit", Some(big));
             let (st, _d) = new_dev(&sp.cfg.base);
             let ctr = Rc::new(Cell::new(0u32));
-            let ctx = format!("file of {size:#x} bytes, write of {wlen} bytes at its end");
+            let ctx = format!("file of {size:#x} bytes, {} of {wlen} bytes at its end", if all { "write_all" } else { "write" });
             let r = sess::guarded(|| -> Result<(), (String, String)> {
                 let fs = sess::mount(MemDev::new(st.clone()), &sp.cfg, &ctr).map_err(|e| ("C02/machinery/size-limit/mount".to_string(), format!("{:?}", sess::ek(e))))?;
                 let mut f = fs.root_dir().open_file("BIG.BIN").map_err(|e| ("C02/machinery/size-limit/open".to_string(), format!("{:?}", sess::ek(e))))?;
@@ -196,14 +197,26 @@ pub fn size_limit_checks() -> (Vec<(String, String)>, u64) {
                 }
                 let buf: Vec<u8> = (0..wlen).map(|i| 0x40 | (i as u8 & 0x3F)).collect();
                 let room = (0xFFFF_FFFFu64 - size as u64) as usize;
-                let acc = match f.write(&buf) {
+                let acc = if all {
+                    // write_all: complete success iff everything fits below the limit, otherwise an error after the part that fits
+                    let r = f.write_all(&buf);
+                    let pos = f.seek(SeekFrom::Current(0)).map_err(|e| ("C02/size-limit/tell-failed".to_string(), format!("{ctx}: {:?}", sess::ek(e))))?;
+                    let a = (pos - size as u64) as usize;
+                    match r {
+                        Ok(()) if wlen > room => return Err(("C02/size-limit/write_all-reports-success-beyond-the-limit".into(), format!("{ctx}: Ok(()) although only {room} bytes fit ({a} accepted)"))),
+                        Ok(()) if a != wlen => return Err(("C02/size-limit/write_all-short-without-error".into(), format!("{ctx}: Ok(()) with {a} bytes accepted"))),
+                        Err(e) if wlen <= room => return Err(("C02/size-limit/write-failed".into(), format!("{ctx}: {:?}", sess::ek(e)))),
+                        Err(_) if a != room => return Err(("C02/size-limit/bytes-accepted".into(), format!("{ctx}: write_all failed after {a} bytes, {room} fit below the 4 GiB limit"))),
+                        _ => a,
+                    }
+                } else { match f.write(&buf) {
                     Ok(a) => a,
                     Err(e) => match sess::ek(e) {
                         // nothing fits: refusing is as good as accepting 0 bytes
                         harness::model::ErrKind::WriteZero | harness::model::ErrKind::InvalidInput | harness::model::ErrKind::NotEnoughSpace if room == 0 => 0,
                         k => return Err(("C02/size-limit/write-failed".into(), format!("{ctx}: {k:?}"))),
                     },
-                };
+                } };
                 if acc > wlen.min(room) || (room > 0 && acc == 0) {
                     return Err(("C02/size-limit/bytes-accepted".into(), format!("{ctx}: {acc} bytes accepted, {} fit below the 4 GiB limit", wlen.min(room))));
                 }
